@@ -133,7 +133,7 @@ def _programs(ctx):
                       "docs_shflag": rng.random() < 0.5, "shard_enc": rng.choice(["gzip", "raw"]),
                       "slice_format": ["png", "tiff"][k % 2]})
     progs += (_boundary_programs(ctx) + _multi_chunking_programs(ctx) + _zero_background_programs(ctx)
-              + _in_process_programs(ctx))
+              + _in_process_programs(ctx) + _history_programs(ctx))
     return progs
 
 
@@ -203,6 +203,40 @@ def _zero_background_programs(ctx):
             cmds += [C("Convert", "B", src="A", copy="copy")]
         cmds += [C("Stats", "B"), C("Convert", "B", src="A", copy="keep"), C("Stats", "B")]
         progs.append(_prog(rng, vol, cmds))
+    return progs
+
+
+def _history_programs(ctx):
+    """Histories after which the report must still equal the dataset:
+      - compute-scales run again after a run that failed half way (one input chunk hidden while
+        the last scale is written, then restored);
+      - convert-chunks into a destination whose info lists MORE (and fewer) scales than the source;
+      - volume-to-precomputed into a sharded destination whose first shard file cannot be written."""
+    rng = ctx.rng
+    iso = [1.0, 1.0, 1.0]
+    progs = []
+    gen = lambda sh="nosh", mx="all": [C("GenInfo", "A", sh=sh),
+                                       C("GenScales", "A", src="A", type="image", enc="raw", max=mx)]
+    for shape, tgt, dt in [([70, 10, 8], 16, "uint8"), ([40, 6, 5], 8, "uint16")] + (
+            [] if ctx.quick else [([rng.randint(66, 120), rng.randint(3, 9), rng.randint(2, 6)], 16, "uint8")
+                                  for _ in range(6)]):
+        vol = _vol(shape, dt, iso, tgt)
+        vol["nall"] = min(vol["nall"], 2)
+        progs.append(_prog(rng, vol, gen(mx="two") + [C("Vol", "A"), C("Damage", "A", m="hide"),
+                                                      C("Compute", "A", m="auto"), C("Stats", "A"),
+                                                      C("Restore", "A"), C("Compute", "A", m="auto"),
+                                                      C("Stats", "A")], tgt=tgt))
+    for src_max, dst_max, shape, voxel in [("two", "all", [300, 3, 2], [1.0, 2.0, 4.0]),
+                                           ("one", "all", [270, 4, 3], iso),
+                                           ("all", "two", [290, 3, 2], [1.0, 2.0, 4.0])]:
+        vol = _vol(shape, "uint8", voxel)
+        progs.append(_prog(rng, vol, gen(mx=src_max) + [C("Vol", "A"), C("Compute", "A", m="auto"),
+                                                        C("GenScales", "B", src="A", type="image", enc="raw",
+                                                          max=dst_max),
+                                                        C("Stats", "B"), C("Convert", "B", src="A", copy="keep"),
+                                                        C("Stats", "B")]))
+    progs.append(_prog(rng, _vol([270, 3, 2], "uint8", iso),
+                       gen("s110") + [C("Obstruct", "A", m="first"), C("Vol", "A"), C("Stats", "A")]))
     return progs
 
 
